@@ -302,6 +302,9 @@ fn run_known(args: &Args) -> Report {
         &|u| u.as_str() == "about:#f" && u.fragment().is_none());
     wit(&mut rep, "F-C02-2", &["C02", "C03", "C06"], "a://host//x", Op::SetHost(None), &|u| u.as_str() == "a://x");
     wit(&mut rep, "F-C02-8", &["C02", "C03", "C06"], "a:/p", Op::SetPath("//x".into()), &|u| u.as_str() == "a://x");
+    // fixed (0cfc9d8): set_path on a cannot-be-a-base URL tested for the leading '/' before tab/LF/CR removal
+    wit(&mut rep, "F-C06-6", &["C02", "C03", "C05", "C06"], "a:b", Op::SetPath("\t/ y".into()),
+        &|u| !u.cannot_be_a_base() || u.as_str() == "a:/ y");
     rep
 }
 
@@ -441,24 +444,7 @@ fn directed_search(rep: &mut Report) {
 /// through the parser and through set_host.  A premise violation is reported as a differing request
 /// ("hist <url>"), so that the search phase replays it and reports the failing URL.
 fn hostok_stream(rep: &mut Report) {
-    let mut hosts: Vec<String> = Vec::new();
-    for c in 0u8..=0x7f {
-        let raw = (c as char).to_string();
-        let pct = format!("%{:02X}", c);
-        let mut forms = vec![raw, pct];
-        if (0x21..=0x7e).contains(&c) {
-            forms.push(char::from_u32(0xFF00 + (c as u32 - 0x20)).unwrap().to_string());
-        }
-        for f in &forms {
-            hosts.push(format!("a{}b", f));
-            hosts.push(format!("\u{e9}{}", f));
-            hosts.push(format!("{}\u{e9}", f));
-            hosts.push(format!("caf\u{e9}{}.example", f));
-            hosts.push(format!("x.{}\u{4e2d}a", f));
-            hosts.push(format!("xn--caf{}-dpa.example", f));
-            hosts.push(format!("XN--{}-1ga", f));
-        }
-    }
+    let hosts = host_premise_pool();
     let file = Url::parse("file:///p").unwrap();
     let http = Url::parse("http://h/p").unwrap();
     let mut n = 0u64;
